@@ -563,7 +563,7 @@ func runFxAcc(m *model.Model, s *ob.Set) {
 	const R = "FX-ACC"
 	e := newRBW(m)
 	s.Note(R, "(*Decimal).SetMantExp", m.Pos(m.Lookup("(*Decimal).SetMantExp").Pos()), "not armed: for a zero or infinite mantissa SetMantExp keeps the accuracy Copy gave it (attribute-copy semantics shared with math/big); with z == mant nothing is written")
-	for _, n := range []string{"Add", "Sub", "Mul", "Quo", "FMA", "Set", "SetPrec", "SetInt", "SetInt64", "SetUint64", "SetRat", "SetFloat", "SetFloat64", "SetInf", "SetMode", "Neg", "Abs", "Sqrt", "SetBitsExp", "setBits64", "scan"} {
+	for _, n := range []string{"Add", "Sub", "Mul", "Quo", "FMA", "Set", "SetPrec", "SetInt", "SetInt64", "SetUint64", "SetRat", "SetFloat", "SetFloat64", "SetInf", "SetMode", "Neg", "Abs", "Sqrt", "SetBitsExp", "setBits64", "scan", "Parse"} {
 		fn := m.Lookup("(*Decimal)." + n)
 		// strict: the accuracy must be written even when the receiver is an operand (z.Set(z) is Exact)
 		ok := e.mustWrite(fn, 0, m.F.Acc)
